@@ -41,7 +41,10 @@ type Class struct {
 	Neg     bool      `json:"neg,omitempty"`
 	Ranges  [][2]byte `json:"ranges,omitempty"`
 	Singles []byte    `json:"singles,omitempty"`
-	Hyphen  bool      `json:"hyphen,omitempty"` // literal '-' (rendered last)
+	Hyphen  bool      `json:"hyphen,omitempty"` // literal '-' (rendered last, or first if HyphenFirst)
+	// HyphenFirst renders the literal '-' as the first member, directly after '[' or '[^' (the other place where a hyphen is
+	// literal by the usual bracket-expression rules)
+	HyphenFirst bool `json:"hyphenFirst,omitempty"`
 }
 
 // Has reports whether the class contains byte b.
@@ -193,6 +196,9 @@ func RenderClass(cl *Class) string {
 	if cl.Neg {
 		b.WriteByte('^')
 	}
+	if cl.Hyphen && cl.HyphenFirst {
+		b.WriteByte('-')
+	}
 	for _, r := range cl.Ranges {
 		b.WriteString(escapePattern(string([]byte{r[0]})))
 		b.WriteByte('-')
@@ -201,7 +207,7 @@ func RenderClass(cl *Class) string {
 	for _, s := range cl.Singles {
 		b.WriteString(escapePattern(string([]byte{s})))
 	}
-	if cl.Hyphen {
+	if cl.Hyphen && !cl.HyphenFirst {
 		b.WriteByte('-')
 	}
 	b.WriteByte(']')
